@@ -88,7 +88,15 @@ RAW8 = [R("raw", tb, lb, k) for tb in (0, 1) for lb in (0, 1) for k in (0, 1)]
 RAW4 = [R("raw", tb, lb, tb ^ lb) for tb in (0, 1) for lb in (0, 1)]
 CGE3 = [R("cge", 1, 0, None), R("cge", 0, 1, None), R("cge", 1, 1, None)]
 CGE4 = [R("cge", tb, lb, None) for tb in (0, 1) for lb in (0, 1)]
-NLX = [R("raw", 1, 1, 1, "crlf"), R("raw", 0, 0, 0, "cr")]
+# source newline styles other than LF x keep_trailing_newline: every pairing exists; the quick tier gives each case ONE of them (rotating with the source
+# text, so that every pairing meets every shape of template ending), the thorough tier all four
+NLX = [R("raw", 1, 1, 1, "crlf"), R("raw", 0, 0, 0, "cr"), R("raw", 0, 1, 0, "crlf"), R("raw", 1, 0, 1, "cr")]
+
+
+def nlx_for(src, quick):
+    if "\n" not in src:
+        return []
+    return [NLX[sum(map(ord, src)) % len(NLX)]] if quick else NLX
 LOADER_KINDS = {"include", "import", "from", "extends"}
 
 
@@ -98,12 +106,12 @@ def runs_for(case):
     src = "".join(case["ps"])
     q = _W.get("quick", False)  # the quick tier renders each case under fewer (not other) settings
     if k == "same":
-        rs = (RAW8 if src.endswith("\n") or LOADER_KINDS & set(case["ks"]) else RAW4) + (CGE3[:2] if q else CGE3) + ((NLX[:1] if q else NLX) if "\n" in src else [])
+        rs = (RAW8 if src.endswith("\n") or LOADER_KINDS & set(case["ks"]) else RAW4) + (CGE3[:2] if q else CGE3) + nlx_for(src, q)
         if case.get("plus"):
             rs = [r for r in rs if r["lb"]]
         return rs
     if k == "marker":
-        return RAW4 + [R("raw", 0, 0, 0), R("cge", 1, 1, None)] + ([] if q else [R("cge", 0, 0, None)]) + ((NLX[:1] if q else NLX) if "\n" in src else [])
+        return RAW4 + [R("raw", 0, 0, 0), R("cge", 1, 1, None)] + ([] if q else [R("cge", 0, 0, None)]) + nlx_for(src, q)
     if k == "filter":
         return FRUNS
     return CGE4
